@@ -7,6 +7,15 @@ LABELS = ['single-3', 'nested-2', 'taken-order-differs', 'activated-by-two-choic
           'dv-3', 'met-1']
 
 
+# (graph A, graph B with the same variables): a processor of A serves decodes before fresh processors of B are compared
+CROSS = [('inc-opt-opt-1', 'inc-opt-opt-none'), ('inc-three-opts-1', 'inc-three-opts-none'), ('inc-nested-0', 'inc-nested-none'),
+         ('inc-derived-0', 'inc-derived-none')]
+
+
+def cross(payload, tier, seed):
+    return enumchecks.cross_member(payload, tier, seed)
+
+
 def member(payload, tier, seed):
     return enumchecks.history_member(payload, tier, seed)
 
@@ -15,8 +24,10 @@ def run(tier='quick', seed=0):
     allm = {d.label: d for d in corpus(['sel', 'inc', 'con', 'forced', 'conn', 'conn2', 'dvmet'], 'quick')}
     members = [(allm[l], enc) for l in LABELS if l in allm for enc in ('COMPLETE', 'FAST')]
     results = harness.run_pool('bounded.drivers.C05', 'member', members, tier, seed)
+    pairs = [(a, b_, enc) for a, b_ in CROSS for enc in ('COMPLETE', 'FAST')]
+    results += harness.run_pool('bounded.drivers.C05', 'cross', pairs, tier, seed)
     return harness.aggregate(
         results,
         rule='one evaluation = comparison of the full observable behaviour (decode of up to 8 vectors with create=True/False: corrected vector, activeness, architecture, stored metric values) with processors that have served nothing (one per decode) after one history prefix; non-trivial = distinct (graph, encoder, history prefix)',
-        bound=f'{len(LABELS)} graphs x 2 encoders; histories over decode(4 vectors, create T/F), enumerate, statistics, mutate returned instance, pickle round trip, fix/free (complete encoder): all sequences of length 2 (quick) / 3 (thorough)',
+        bound=f'{len(LABELS)} graphs x 2 encoders; histories over decode(4 vectors, create T/F), enumerate, statistics, mutate returned instance, pickle round trip, fix/free (complete encoder): all sequences of length 2 (quick) / 3 (thorough); 4 graph pairs x 2 encoders: a processor of another graph with the same variables serves all its decodes first (fresh interpreter per pair)',
         assumptions=['hash-seed / cross-process clause is only covered by the thorough configuration sweep'], exhaustive=True)
